@@ -180,7 +180,10 @@ def leaf(node, atom, inl, depth=0):
     if k == "path" and "::" not in node["p"] and inl is not None:
         init = inl._init_of(node, node["p"])
         if init is not None and init.get("k") in ("if", "match", "block"):
-            return leaf(init, atom, inl, depth + 1)
+            try:
+                return leaf(init, atom, inl, depth + 1)
+            except Unknown:
+                return node          # a decision the environment says nothing about: the local itself is the leaf
     return node
 
 
